@@ -91,6 +91,31 @@ def leaves_of(cond, k3=False, top=True):
     return lits, nums
 
 
+def object_pairs_of(cond):
+    """(equalities, inequalities) between objects written at the top level of a (substituted) condition, as sets of
+    unordered pairs."""
+    eqs, neqs = set(), set()
+    items = cond[1:] if cond and cond[0] == "and" else ([cond] if cond else [])
+    for c in items:
+        if c and c[0] == "=" and isinstance(c[1], str) and not pddl.is_number(c[1]):
+            eqs.add(tuple(sorted(c[1:3])))
+        elif c and c[0] == "not" and c[1][0] == "=" and isinstance(c[1][1], str) and not pddl.is_number(c[1][1]):
+            neqs.add(tuple(sorted(c[1][1:3])))
+    return eqs, neqs
+
+
+def lib_object_pairs(grounded):
+    """The same as the library holds them for a grounded condition; None when they are not where this reader looks (the
+    library offers no public accessor: a differently organised library is not judged on this)."""
+    root = getattr(getattr(grounded, "_grounded_precondition", None), "root", None)
+    if root is None or not hasattr(root, "equality_preconditions") or not hasattr(root, "inequality_preconditions"):
+        return None
+    try:
+        return ({tuple(sorted(p)) for p in root.equality_preconditions}, {tuple(sorted(p)) for p in root.inequality_preconditions})
+    except TypeError:
+        return None
+
+
 def lib_leaves(iterable):
     from pddl_plus_parser.models import GroundedPredicate, NumericalExpressionTree
     lits, nums, typed = [], [], []
@@ -177,6 +202,7 @@ def check_case(case):
                         except Exception:  # noqa: C03's business
                             pass
             pre = lib_leaves(op.grounded_preconditions)
+            pairs = [("pre", a["pre"], lib_object_pairs(op.grounded_preconditions))]
             groups = []
             for ge in op.grounded_effects:
                 adds = ssort((g.name,) + tuple(g.grounded_objects) for g in ge.grounded_discrete_effects if g.is_positive)
@@ -202,12 +228,19 @@ def check_case(case):
                     for node in tr:
                         if node.is_leaf and isinstance(node.value, PDDLFunction):
                             fterms.add(tuple(sexpr.read(node.value.state_representation)[1]))
-            return pre, groups, op.typed_action_call, str(op), fterms
+            return pre, groups, op.typed_action_call, str(op), fterms, pairs
         ok2, out = lib_call(run)
         if not ok2:
             res.bad(f"C20/ground/exception:{out.key}", {**info, "error": repr(out)})
             continue
-        (lits, nums, typed), groups, tcall, call_str, fterms = out
+        (lits, nums, typed), groups, tcall, call_str, fterms, pairs = out
+        # object (in)equalities of the precondition: the pairs of call arguments at the compared parameters' positions
+        for where, cond, got_pairs in pairs:
+            if got_pairs is not None and cond:
+                exp_pairs = object_pairs_of(pddl.substitute(cond, env))
+                if got_pairs != exp_pairs:
+                    res.bad("C20/preconditions/object-pairs-differ", {**info, "where": where, "expected": [sorted(exp_pairs[0]), sorted(exp_pairs[1])],
+                                                                      "got": [sorted(got_pairs[0]), sorted(got_pairs[1])]})
         # function terms of the grounded trees: each is a function term of the substituted schema (same arguments, same
         # multiplicities); terms over quantified variables have no ground form and are not expected here
         fnames = {n for n, _ in dom["functions"]}
